@@ -3,7 +3,8 @@ import NdnModel.Lvs.Model
   Specification vocabulary for the LVS properties, **independent of the checker's code**:
 
   * `Sane m` — the sanity rules of docs/src/lvs/binary-format.rst ("Sanity Check") as a
-    declarative predicate over the part of the model reachable from the start node;
+    declarative predicate (the node-id rule over the whole node array, the other rules over the part of
+    the model reachable from the start node);
   * `Path m fns cnt n σ name n' σ'` — the denotation of the compiled tree (binary-format.rst,
     "Node" / "Constraint"): `name` leads from node `n` with bindings `σ` to node `n'` with bindings
     `σ'` through edges that accept its components one by one: a value edge accepts the equal component;
@@ -109,14 +110,15 @@ def OptionShape (o : ConsOption) : Prop :=
    ((o.value = none ∨ o.value = some []) ∧ o.tag = none ∧
       ∃ f id, o.fn = some f ∧ f.fnId = some id ∧ id ≠ ""))
 
-/-- the rules of binary-format.rst, "Sanity Check", for the nodes reachable from the start node -/
+/-- the rules of binary-format.rst, "Sanity Check": node ids for every node, the rest for the nodes reachable
+    from the start node -/
 structure Sane (m : Model) : Prop where
   /-- `Version` is supported -/
   version : ∃ v, m.version = some v ∧ minVersion ≤ v ∧ v ≤ maxVersion
   /-- the start node exists and has no parent -/
   root : ∃ node, m.nodes[m.startId]? = some node ∧ node.parent = none
-  /-- every node's `NodeId` equals its index in the array -/
-  ids : ∀ n node, Reach m n → m.nodes[n]? = some node → node.id = some n
+  /-- every node's `NodeId` equals its index in the array (reachable from the start node or not) -/
+  ids : ∀ (n : Nat) (node : Node), m.nodes[n]? = some node → node.id = some n
   /-- all edges refer to an existing destination node, whose parent is the source of the edge;
       edges carry their value / tag -/
   edges : ∀ n node, Reach m n → m.nodes[n]? = some node →
